@@ -222,10 +222,10 @@ def histories(fl: int, mi: int, a0: int, a1: int, a2: int, n: int) -> str:
     return verdict(untraced(_sel, fl, mi, a0, a1, a2, n, 0, 0, False))
 
 
-@cond(quick=dict(timeout=170, parts=dict(FL=[0, 1])), thorough=dict(timeout=900, parts=dict(FL=[0, 1])))
+@cond(quick=dict(timeout=170, parts=dict(FL=[0, 1], MODE=[0, 1, 2])), thorough=dict(timeout=900, parts=dict(FL=[0, 1], MODE=[0, 1, 2])))
 def handler_exceptions(fl: int, mi: int, a0: int, a1: int, me: int, de: int, legacy: bool) -> str:
     """
-    pre: fl == P.FL and 0 <= mi <= 2 and 0 <= a0 <= 4 and 0 <= a1 <= 7 and 0 <= me < len(EXCS) and 0 <= de < len(EXCS)
+    pre: fl == P.FL and mi == P.MODE and 0 <= a0 <= 4 and 0 <= a1 <= 7 and 0 <= me < len(EXCS) and 0 <= de < len(EXCS)
     pre: (me > 0 or de > 0 or legacy) and (me == 0 or de == 0 or me == de)
     post: _ == ''
     """
@@ -344,11 +344,11 @@ def _race(fl, mi, c0, c1, slow, s0, s1, s2):
         sut.close()
 
 
-@cond(quick=dict(timeout=170, parts=dict(FL=[0, 1])), thorough=dict(timeout=900, parts=dict(FL=[0, 1], SLOW=[0, 1])))
+@cond(quick=dict(timeout=170, parts=dict(FL=[0, 1], MODE=[0, 1, 2])), thorough=dict(timeout=900, parts=dict(FL=[0, 1], MODE=[0, 1, 2])))
 def racing_ends(fl: int, mi: int, c0: int, c1: int, slow: bool, s0: int, s1: int, s2: int) -> str:
     """
-    pre: fl == P.FL and 0 <= mi <= 2 and 0 <= c0 < len(RACERS) and 0 <= c1 < len(RACERS) and c0 != c1
-    pre: 0 <= s0 <= 2 and 0 <= s1 <= 1 and 0 <= s2 <= 1 and (not hasattr(P, 'SLOW') or slow == bool(P.SLOW))
+    pre: fl == P.FL and mi == P.MODE and 0 <= c0 < len(RACERS) and 0 <= c1 < len(RACERS) and c0 != c1
+    pre: 0 <= s0 <= 2 and 0 <= s1 <= 1 and 0 <= s2 <= 1
     post: _ == ''
     """
     return verdict(untraced(_race, fl, mi, c0, c1, slow, s0, s1, s2))
